@@ -199,6 +199,14 @@ class Driver:
 
     def __init__(self, dbkind, path, keys):
         from ipv8.keyvault.crypto import ECCrypto
+        from ipv8.keyvault import keys as keymod
+        # PseudonymManager.add_credential iterates a *set* of (PublicKey, Attestation) pairs; key objects hash
+        # by identity, so the order of the attestation inserts of one call would differ from process to
+        # process (dry run vs killed run).  Pin it: hash keys by their serialisation, independent of
+        # PYTHONHASHSEED.  Equality is untouched.
+        if not getattr(keymod.PublicKey, "_c19_stable_hash", False):
+            keymod.PublicKey.__hash__ = lambda k: int.from_bytes(hashlib.sha256(k.key_to_bin()).digest()[:7], "big")
+            keymod.PublicKey._c19_stable_hash = True
         self.crypto = ECCrypto()
         self.kind = dbkind
         self.path = path
@@ -1053,7 +1061,7 @@ def run_scenario(ctx, lab: Lab, scen, gen_text, pool, every_event=True, vm_kills
             calls = [s for s in st if s["proc"] == pi]
             inst = model_instants(events, n_script_statements(kind, gen_text))
             lab.run_proc(scen, base, pi, scen["procs"][pi], kill=kill)
-            k = inst[fk] if kill else 200
+            k = inst[fk] if kill else (inst[-1] if inst else 0)      # the end: every step of this process done
             hist_model.append("(%s, %d%%nat)" % (calls_to_coq(kind, calls, ids), k))
             shutil.rmtree(dry, ignore_errors=True)
         if not ok:
@@ -1070,6 +1078,7 @@ def run_scenario(ctx, lab: Lab, scen, gen_text, pool, every_event=True, vm_kills
         calls = [s for s in st if s["proc"] == last]
         inst = model_instants(events, n_script_statements(kind, gen_text))
         total_vm = events[-1][1] if events else 0
+        end_k = inst[-1] if inst else 0                          # instant after the last step of the process
         kills = [["event", i] for i in range(len(events))
                  if (every_event and fk is None) or essential_event(events[i][0])]
         kills.append(None)                                           # runs to its end, no close
@@ -1107,7 +1116,7 @@ def run_scenario(ctx, lab: Lab, scen, gen_text, pool, every_event=True, vm_kills
                 continue              # the upgrade of an old file is outside the Coq model: oracle only
             e = enc_obs(kind, obs, ids)
             if kill is None:
-                exact.append((300, e))
+                exact.append((end_k, e))
             elif kill[0] == "event":
                 exact.append((inst[kill[1]], e))
             elif kill[0] == "vm":
@@ -1116,9 +1125,9 @@ def run_scenario(ctx, lab: Lab, scen, gen_text, pool, every_event=True, vm_kills
                 for (lab_, vmc), ix in zip(events, inst):
                     if vmc < kill[1]:
                         lo = ix
-                ranged.append((lo, min(lo + 2, 300), e))
+                ranged.append((lo, min(lo + 2, end_k), e))
             else:
-                ranged.append((0, 300, e))
+                ranged.append((0, end_k, e))
         hist = "[" + "; ".join(hist_model) + "]"
         acts = calls_to_coq(kind, calls, ids)
         cfg = "identity_cfg" if kind == "identity" else "wallet_cfg"
@@ -1393,6 +1402,9 @@ def _run(ctx, scratch, tr_db, coqrun, VERIF):
             g = random_wallet(wg, 30, 2)
             g["label"] += "-%d" % gi
             plan.append((g, dict(vm_kills=20, timer_kills=20)))
+    only = os.environ.get("C19_ONLY")        # debugging aid: restrict the kill experiments to scenarios by label prefix
+    if only:
+        plan = [(sc, kw) for sc, kw in plan if sc["label"].startswith(only)]
     for scen, kw in plan:
         t0 = time.time()
         cases, results = run_scenario(ctx, lab, scen, gen_text or "", workers, **kw)
